@@ -163,6 +163,7 @@ type zzOracle struct {
 	step    uint64
 	issued  []uint64
 	expired bool // what IsExpired answers
+	fail    bool // GetTimestamp fails (PD unavailable)
 	// symbolic: every issued timestamp is the previous one plus a symbolic step
 	symbolic bool
 	// symbolicStep: the gaps are symbolic too (otherwise a fixed step of 7)
@@ -179,6 +180,9 @@ func (f zzFuture) Wait() (uint64, error) { return f.ts, f.err }
 func (o *zzOracle) GetTimestamp(ctx context.Context, op *oracle.Option) (uint64, error) {
 	o.mu.Lock()
 	defer o.mu.Unlock()
+	if o.fail {
+		return 0, errors.New("zz: PD is unavailable")
+	}
 	if o.symbolic && o.symbolicStep {
 		st := zzU64("ts.step")
 		zzAssume(st >= 1 && st <= 1<<20)
